@@ -5,3 +5,9 @@
 package properties
 
 //@ global Skipable immutable -- property key, only compared
+
+//@ func (*propertyKey).String
+//@   tags C09
+//@   requires p != nil
+//@   assigns nothing
+//@   ensures true
